@@ -137,6 +137,27 @@ pub fn run(ctx: &Ctx) -> Outcome {
                     }
                 }
             }
+            if shard == 0 {
+                // every recognised code (and the same first byte under the neighbouring types) followed by 1..254
+                // further bytes: a code is a code at data length 1 only, whatever the longer length is congruent to
+                for (cty, cd) in &codes {
+                    if cd.len() != 1 {
+                        continue;
+                    }
+                    for len in 2..=255usize {
+                        for ty in [*cty, cty.wrapping_add(1), cty.wrapping_sub(1)] {
+                            let mut d = data_of(len, cd[0]);
+                            if len % 2 == 0 {
+                                for b in d.iter_mut().skip(1) {
+                                    *b = cd[0];
+                                }
+                            }
+                            check_frame(if len % 3 == 0 { 0x0003 } else { 0xFFFF }, ty, &d, len % 2 == 1, rep);
+                            rep.count("codes_at_longer_lengths");
+                        }
+                    }
+                }
+            }
             rep.count("types_swept");
         } else if shard < 512 {
             // all 65 536 addresses (this high byte) for each recognised code and for data chunks
@@ -172,6 +193,7 @@ pub fn run(ctx: &Ctx) -> Outcome {
     });
 
     let mut floors = vec![
+        floor("every one-byte code followed by 1..254 further bytes", report.get("codes_at_longer_lengths") > 15_000, report.get("codes_at_longer_lengths")),
         floor("all 256 message types swept against all 256 first bytes", report.get("types_swept") == 256, report.get("types_swept")),
         floor("all 65536 addresses swept for every code", report.get("addresses_swept") == 65_536, report.get("addresses_swept")),
     ];
@@ -187,7 +209,7 @@ pub fn run(ctx: &Ctx) -> Outcome {
     Outcome {
         report,
         level: "exploration",
-        rule: "exhaustive 256 types x 256 first bytes x lengths {0,1,2,3,16,255} x 8 addresses; all 65536 addresses x (30 fixed codes + data chunks of 5 lengths); seeded random frames biased to code values; owned and borrowed data alternate; distinct by (address,type,data) hash; every frame is non-trivial (each is a distinct table lookup)".into(),
+        rule: "exhaustive 256 types x 256 first bytes x lengths {0,1,2,3,16,255} x 8 addresses; every one-byte code (and its first byte under the neighbouring types) at every data length 2..=255; all 65536 addresses x (30 fixed codes + data chunks of 5 lengths); seeded random frames biased to code values; owned and borrowed data alternate; distinct by (address,type,data) hash; every frame is non-trivial (each is a distinct table lookup)".into(),
         exhaustive: false,
         floors,
         assumptions: vec!["oracle: code table transcribed in harness/src/refs.rs (Appendix A); Message inspected only through its public enum".into()],
